@@ -326,11 +326,15 @@ func u64sEq(a, b []uint64) bool {
 
 // sCheckPostings: every (field, term) of the spec answers exactly the expected hits.
 func sCheckPostings(seg segment.Segment, sp *sSpec, tag string) {
+	// the list object of one lookup is handed back as preallocation to the next (also across fields and for
+	// absent terms), as the callers of this API do
+	var prev segment.PostingsList
 	for _, fp := range sp.posts {
 		dict, err := seg.Dictionary(fp.field)
 		vAssert(err == nil && dict != nil, tag+"dict")
 		for _, tp := range fp.terms {
-			pl, err := dict.PostingsList([]byte(tp.term), nil, nil)
+			pl, err := dict.PostingsList([]byte(tp.term), nil, prev)
+			prev = pl
 			vAssert(err == nil && pl != nil, tag+"postingslist")
 			vAssert(pl.Count() == uint64(len(tp.hits)), tag+"count")
 			it := pl.Iterator(true, true, true, nil)
@@ -357,8 +361,10 @@ func sCheckPostings(seg segment.Segment, sp *sSpec, tag string) {
 	// a field that does not exist answers with empty results
 	dict, err := seg.Dictionary("no-such-field")
 	vAssert(err == nil && dict != nil, tag+"nofield-dict")
-	pl, err := dict.PostingsList([]byte("a"), nil, nil)
+	pl, err := dict.PostingsList([]byte("a"), nil, prev)
 	vAssert(err == nil && pl != nil && pl.Count() == 0, tag+"nofield-empty")
+	p, err := pl.Iterator(true, true, true, nil).Next()
+	vAssert(err == nil && p == nil, tag+"nofield-iter-empty")
 }
 
 // sCheckStored: Count, Fields, stored values, DocID, DocNumbers.
